@@ -229,6 +229,8 @@ def inputs_for(prop, tier):
             items.append({"policy": "always", "pattern": "frag-fault", "interval_ms": interval, "jitter": jitter, "observe": 5})
             # a trigger crossed by deletes alone, after the task has already checked a few times and found nothing
             items.append({"policy": "always", "pattern": "late-del", "interval_ms": interval, "jitter": jitter, "observe": 4})
+            # the crossing write is held half-way while the task checks (twice), then idleness
+            items.append({"policy": "always", "pattern": "frag-held", "interval_ms": interval, "jitter": jitter, "observe": 3})
             # a trigger that is already exceeded when the store is opened (left by an earlier incarnation), no client action
             items.append({"policy": "always", "pattern": "frag-reopen", "interval_ms": interval, "jitter": jitter, "observe": 3})
             items.append({"policy": "never", "pattern": "frag-reopen", "interval_ms": interval, "jitter": jitter, "observe": 3})
